@@ -68,6 +68,17 @@ def run(ctx):
                     add(doc(ty, s), ok, "%s/%s" % ("intN" if signed else "uintN", how))
                 if rng.random() < (0.15 if not thorough else 1.0):
                     add(plant(rng, ty, spellings(v)[rng.randrange(2)][1]), ok, "planted/%s" % ("intN" if signed else "uintN"))
+    # one bit far above the width (limb boundaries) with small low bits: must be refused for every narrower type
+    for n in range(8, 257, 8):
+        for kbit in (n, n + 1, n + 8, 63, 64, 65, 127, 128, 129, 191, 192, 200, 255):
+            if kbit < n or kbit > 255:
+                continue
+            for low in (0, 5, (1 << n) - 1):
+                v = (1 << kbit) + low
+                how, s = spellings(v)[rng.randrange(2)]
+                add(doc("uint%d" % n, s), False, "uintN/high-bit-above-width")
+                if kbit >= n and kbit <= 254:
+                    add(doc("int%d" % n, spellings(-v)[rng.randrange(2)][1]), False, "intN/high-bit-above-width")
     ctx.exhaustive["uintN/intN for every N in 8..256 x 8 boundary values x every spelling"] = True
     # ---- bytesN lengths
     for n in range(1, 33):
@@ -101,6 +112,12 @@ def run(ctx):
     add(doc("Inner", {"a": "s", "b": 1, "": None}, inner), False, "members/extra")
     add(doc("Inner", {"a": "s", "b": 1, "A": "s"}, inner), False, "members/extra")
     add(doc("Inner[]", [{"a": "s", "b": 1}, {"a": "s", "b": 1, "c": 0}], inner), False, "members/extra")
+    # a struct type that declares the same member name twice can never be satisfied by a JSON object
+    dup = {"Dup": [("amount", "uint256"), ("to", "address"), ("amount", "uint256")]}
+    for obj in ({"amount": 1, "to": "0x" + "11" * 20}, {"amount": 1, "to": "0x" + "11" * 20, "fee": 2}, {"amount": 1, "to": "0x" + "11" * 20, "amount2": 1}, {"amount": 1}):
+        add(doc("Dup", obj, dup), False, "members/duplicate-member-name")
+    add(doc("Dup2", {"a": True}, {"Dup2": [("a", "bool"), ("a", "bool")]}), False, "members/duplicate-member-name")
+    add(doc("Dup2[]", [], {"Dup2": [("a", "bool"), ("a", "bool")]}), True, "members/duplicate-member-name(no value needed)")
     add(doc("Nope", {"a": 1}), False, "undefined-struct")
     add(doc("Nope[]", []), False, "undefined-struct")
     add(doc("Inner", {"a": "s", "b": 1}, {"Inner": [("a", "string"), ("b", "uint8"), ("c", "Ghost[]")]}), False, "undefined-struct")
